@@ -154,4 +154,27 @@ theorem updateTree_mods (adj : List Link) (order : List Nat) (conns : Conns) (pv
       · have : ∀ m ∈ mods, (m.sw, m.port) ≠ (sw, p) := fun m hmm ek => hex ⟨m, hmm, ek⟩
         exact absurd ((hag (sw, p)).symm.trans (applyMods_untouched (sw, p) mods pv this)) hne
 
+/-- RECOVERY after a failed send (`_prev` cleared): the next `_update_tree()` that goes through sends a port_mod for every port below
+    `OFPP_MAX` of every connected tree switch, so WHATEVER the NO_FLOOD bits were before, those ports end with the right bit. -/
+theorem update_from_cleared (adj : List Link) (order : List Nat) (conns : Conns) (pv' : Prev) (mods : List PortMod)
+    (t : List TEdge) (ht : calcTreeL adj order = .ok t) (h : updateTree adj order conns [] = .ok (pv', mods)) (b : Prev) :
+    ∀ sw ∈ treeKeys t, ∀ ports, conns.get sw = some ports → ∀ p ∈ ports, p < OFPP_MAX →
+      (applyMods b mods).get (sw, p) = some (floodOf adj (treePorts t sw) sw p) := by
+  intro sw hsw ports hp p hpp hlt
+  have hg := updateTree_post adj order conns [] pv' mods t ht h sw hsw ports hp p hpp hlt
+  obtain ⟨_, h2, h3⟩ := updateTree_mods adj order conns [] pv' mods h
+  have hne : pv'.get (sw, p) ≠ Prev.get [] (sw, p) := by rw [hg]; simp [Prev.get]
+  obtain ⟨f, hf⟩ := (h2 sw p).mpr hne
+  apply applyMods_touched (sw, p) _ mods b ⟨_, hf, rfl⟩
+  intro m hm ek
+  have := h3 m hm
+  rw [ek, hg] at this
+  exact (Option.some.inj this).symm
+
+/-- a failed send leaves `_prev` empty and has delivered a prefix of the port_mods of the undisturbed run -/
+theorem updateTreeF_failed (adj : List Link) (order : List Nat) (conns : Conns) (pv pv' : Prev) (mods : List PortMod) (k : Nat)
+    (h : updateTree adj order conns pv = .ok (pv', mods)) (hk : k < mods.length) :
+    updateTreeF adj order conns pv (some k) = .ok ([], mods.take k) := by
+  unfold updateTreeF; rw [h]; simp [hk]
+
 end Pox.STree
